@@ -103,6 +103,11 @@ func newFakeOkta() *vFakeOkta {
 			rw.WriteHeader(http.StatusUnauthorized)
 			return
 		}
+		for t, tu := range f.tokens { // a new sign-in replaces the pending one
+			if tu == in.Username {
+				delete(f.tokens, t)
+			}
+		}
 		f.n++
 		st := fmt.Sprintf("st-%s-%d", in.Username, f.n)
 		f.tokens[st] = in.Username
@@ -134,6 +139,8 @@ func newFakeOkta() *vFakeOkta {
 				return
 			}
 			f.verified = append(f.verified, user)
+			delete(f.tokens, in.StateToken) // the sign-in transaction is complete
+			u.push = ""
 			json.NewEncoder(rw).Encode(okta.OktaApiPrimaryResponseType{Status: "SUCCESS"})
 			return
 		}
@@ -145,6 +152,8 @@ func newFakeOkta() *vFakeOkta {
 			json.NewEncoder(rw).Encode(okta.OktaApiPushResponseType{Status: "MFA_CHALLENGE", FactorResult: "WAITING"})
 		case "approved":
 			f.verified = append(f.verified, user)
+			delete(f.tokens, in.StateToken)
+			u.push = ""
 			json.NewEncoder(rw).Encode(okta.OktaApiPushResponseType{Status: "SUCCESS"})
 		default:
 			json.NewEncoder(rw).Encode(okta.OktaApiPushResponseType{Status: "MFA_CHALLENGE", FactorResult: "REJECTED"})
